@@ -1,8 +1,284 @@
 import RbV.Basic.Codec
-/-! Driver for property C15 (line protocol → verdict). -/
-namespace RbV.Drv.C15
-open RbV.Codec
+import RbV.Basic.FloatParse
+/-! Driver for property C15: log-space probability arithmetic (line formats: see `harness/src/c15.rs`).
 
-def verdict (_toks : List String) (_out : String) : String := "bad-op unimplemented"
+Every operation is recomputed in **linear space** with core `Float` (IEEE binary64, libm `exp`/`log`) from the
+parsed operands and compared with the linear image of the reported result:
+
+* arithmetic (`add`, `sum`, `cumsum`, `sub`, `1m`): `|exp r − Σ ± exp xᵢ| ≤ 0.5 % · exp(max operand)`.
+  The comparison is done after scaling by the largest operand (`exp (r − M)` against `Σ ± exp (xᵢ − M)`,
+  tolerance 0.005), which is the same inequality in exact arithmetic but does not become vacuous when
+  `exp M` underflows; an observation that only passes the literal f64 inequality is accepted as well
+  (tag `literal-only`) — the weakest reading of the property text.
+  All operands `ln 0` ⇒ the result must be `ln 0` (`-inf`) exactly.  NaN or `+inf` is always a violation.
+* integration helpers: the same with the weighted density values as operands; tolerance 0.5 % of the exact
+  quadrature sum (≥ the largest operand, so weaker than the text — the text does not say what the largest
+  operand of a quadrature is).
+* conversions: chains through `fastexp` (LogProb → Prob) within 0.5 % relative, all others within 1e-9 relative
+  (of the linear value, or of the log / PHRED value — whichever is weaker).
+* `checked`: accepted iff `0 ≤ v ≤ 1`.
+* `consts`: both scale factors within 1e-12 relative of ∓10/ln 10 resp. its inverse, product within 1e-12 of 1.
+* `fexp`: `fastexp` itself within 0.5 % (measured relative error reported as a tag bucket).
+
+`LogProb → Prob` of values ≤ -500 gives exactly 0 (documented cut-off `MIN_VAL` of `fastexp`): reported as
+`reject fastexp-cutoff` (known finding C15-fastexp-cutoff) when the operand's own value is representable. -/
+namespace RbV.Drv.C15
+open RbV.Codec RbV.FloatParse
+
+def tolFast : Float := 0.005
+def tolExact : Float := 1e-9
+
+def maxOf (l : List Float) : Float := l.foldl fmax negInf
+
+/-- `exp (x - M)` with `exp (-inf - M) = 0` also for `M = -inf` guarded by the caller -/
+def sexp (x M : Float) : Float := if isNegInf x then 0.0 else Float.exp (x - M)
+
+/-- result of comparing the reported log value `r` with `Σ exp pos − Σ exp neg`.
+`relToSum`: tolerance relative to the exact value instead of the largest operand. -/
+def checkLin (pos neg : List Float) (r : Float) (relToSum : Bool := false) : String :=
+  if r.isNaN then "reject nan" else
+  if isPosInf r then "reject plus-inf" else
+  let M := maxOf (pos ++ neg)
+  if isNegInf M then (if isNegInf r then "ok" else s!"reject zero-operands-nonzero-result got={fshow r}") else
+  let expect := (pos.map (sexp · M)).foldl (· + ·) 0.0 - (neg.map (sexp · M)).foldl (· + ·) 0.0
+  let got := sexp r M
+  let tol := if relToSum then tolFast * expect.abs else tolFast
+  if (got - expect).abs ≤ tol then "ok" else
+  -- literal f64 reading
+  let lexp := (pos.map Float.exp).foldl (· + ·) 0.0 - (neg.map Float.exp).foldl (· + ·) 0.0
+  let ltol := if relToSum then tolFast * lexp.abs else tolFast * Float.exp M
+  if (Float.exp r - lexp).abs ≤ ltol then "ok literal-only" else
+  s!"reject value scaled-expected={fshow expect} scaled-got={fshow got} largest-operand-ln={fshow M}"
+
+def isOk (v : String) : Bool := v = "ok" || v.startsWith "ok "
+
+/-! ### densities (same formulas as the harness) -/
+
+inductive Dens
+  | const (c : Float) | poly (c0 c1 c2 : Float) | gauss (mu s : Float) | expd (l : Float) | box (lo hi c : Float)
+
+def parseDens (s : String) : Option Dens :=
+  match s.splitOn ":" with
+  | ["const", c] => do pure (.const (← parseFloat c))
+  | ["poly", a, b, c] => do pure (.poly (← parseFloat a) (← parseFloat b) (← parseFloat c))
+  | ["gauss", m, s] => do pure (.gauss (← parseFloat m) (← parseFloat s))
+  | ["expd", l] => do pure (.expd (← parseFloat l))
+  | ["box", lo, hi, c] => do pure (.box (← parseFloat lo) (← parseFloat hi) (← parseFloat c))
+  | _ => none
+
+def pi : Float := 3.14159265358979323846
+
+def Dens.ln (d : Dens) (x : Float) : Float :=
+  match d with
+  | .const c => c
+  | .poly c0 c1 c2 => Float.log (c0 + c1 * x + c2 * x * x)
+  | .gauss mu s => let z := (x - mu) / s; -0.5 * z * z - Float.log (s * Float.sqrt (2.0 * pi))
+  | .expd l => Float.log l - l * x
+  | .box lo hi c => if x ≥ lo && x ≤ hi then c else negInf
+
+/-- quadrature: terms `ln f(xᵢ) + ln wᵢ`, and the common factor as a log -/
+def quadTerms (d : Dens) (a b : Float) (n : Nat) (simpson : Bool) : List Float × Float :=
+  let step := (b - a) / Float.ofNat (n - 1)
+  let terms := (List.range n).map fun i =>
+    let x := if i = n - 1 then b else a + step * Float.ofNat i
+    let w : Float := if i = 0 || i = n - 1 then 1.0 else if simpson then (if i % 2 = 1 then 4.0 else 2.0) else 2.0
+    d.ln x + Float.log w
+  let fac := if simpson then Float.log (b - a) - Float.log (Float.ofNat (n - 1)) - Float.log 3.0
+             else Float.log (b - a) - Float.log (2.0 * Float.ofNat (n - 1))
+  (terms, fac)
+
+def gridTerms (d : Dens) (g : List Float) : List Float :=
+  (g.zip (g.drop 1)).flatMap fun (x0, x1) =>
+    let lw := Float.log (x1 - x0) - Float.log 2.0
+    [d.ln x0 + lw, d.ln x1 + lw]
+
+/-! ### conversions -/
+
+def ln10 : Float := Float.log 10.0
+
+/-- one exact conversion step in `Float` -/
+def convStep (src dst : Char) (v : Float) : Option Float :=
+  match src, dst with
+  | 'p', 'l' => some (Float.log v)
+  | 'l', 'p' => some (Float.exp v)
+  | 'p', 'q' => some (-10.0 * Float.log10 v)
+  | 'q', 'p' => some (Float.exp (-(v / 10.0) * ln10))
+  | 'l', 'q' => some (v * (-10.0 / ln10))
+  | 'q', 'l' => some (v * (-(ln10 / 10.0)))
+  | _, _ => none
+
+def convRef : List Char → Float → Option Float
+  | a :: b :: rest, v => (convStep a b v).bind (convRef (b :: rest))
+  | _, v => some v
+
+/-- does the chain go through the fast exponential (a step LogProb → Prob)? -/
+def usesFast : List Char → Bool
+  | 'l' :: 'p' :: _ => true
+  | _ :: rest => usesFast rest
+  | [] => false
+
+/-- the value that reaches the (first) `l → p` step -/
+def fastOperand : List Char → Float → Option Float
+  | 'l' :: 'p' :: _, v => some v
+  | a :: b :: rest, v => (convStep a b v).bind (fastOperand (b :: rest))
+  | _, _ => none
+
+/-- closeness of two values on the scale `k` (`p`: linear; `l`, `q`: log scales — compared as such or through
+their linear image, whichever is weaker) -/
+def closeOn (k : Char) (got exp tol : Float) : Bool :=
+  if got.isNaN then false else
+  if exp.isInf || got.isInf then got == exp else
+  if (got - exp).abs ≤ tol * exp.abs then true else
+  match k with
+  | 'l' => (Float.exp got - Float.exp exp).abs ≤ tol * Float.exp exp
+  | 'q' => (Float.exp (-(got / 10.0) * ln10) - Float.exp (-(exp / 10.0) * ln10)).abs ≤ tol * Float.exp (-(exp / 10.0) * ln10)
+  | _ => false
+
+def errBucket (rel : Float) : String :=
+  if rel ≤ 1e-12 then "err<=1e-12" else if rel ≤ 1e-6 then "err<=1e-6" else if rel ≤ 1e-5 then "err<=1e-5"
+  else if rel ≤ 1e-4 then "err<=1e-4" else "err<=5e-3"
+
+/-! ### tags -/
+
+def finite (x : Float) : Bool := !x.isInf && !x.isNaN
+
+def pairTags (a b : Float) : String :=
+  let lo := if a < b then a else b
+  let hi := if a < b then b else a
+  (if isNegInf a || isNegInf b then " ln0" else "")
+  ++ (if finite a && finite b then
+        (if a == b then " equal" else "")
+        ++ (if hi - lo > 690.0 then " 300-orders-apart" else "")
+        ++ (if hi - lo ≥ 500.0 then " beyond-cutoff" else if hi - lo > 499.0 then " near-cutoff" else "")
+        ++ (if (hi - lo - 0.693).abs < 1e-3 then " near-switch" else "")
+        ++ (if hi < -708.0 then " underflow-range" else "")
+      else "")
+
+def verdict (toks : List String) (out : String) : String :=
+  if out.startsWith "PANIC" || out.startsWith "HANG" || out.startsWith "CRASH" then "reject " ++ out.replace " " "_" else
+  match toks with
+  | ["consts"] =>
+    match out.splitOn " " with
+    | [a, b] =>
+      match parseFloat a, parseFloat b with
+      | some l2q, some q2l =>
+        let e1 := -10.0 / ln10
+        let e2 := -(ln10 / 10.0)
+        if !relClose l2q e1 1e-12 then s!"reject log-to-phred-factor got={fshow l2q}" else
+        if !relClose q2l e2 1e-12 then s!"reject phred-to-log-factor got={fshow q2l}" else
+        if !((l2q * q2l - 1.0).abs ≤ 1e-12) then "reject factors-not-inverse" else
+        "ok nt consts" ++ (if l2q == -4.3429448190325175 && q2l == -0.23025850929940456 then " literals-as-in-theorem" else " literals-drift")
+      | _, _ => "bad-op output"
+    | _ => "bad-op output"
+  | ["checked", v] =>
+    match parseFloat v with
+    | none => "bad-op parse"
+    | some x =>
+      let should := x ≥ 0.0 && x ≤ 1.0
+      if out = "err" then (if should then "reject valid-probability-refused" else "ok nt checked refused")
+      else match out.splitOn ":" with
+        | ["ok", w] =>
+          match parseFloat w with
+          | some y => if !should then "reject invalid-probability-accepted" else if y == x then "ok nt checked accepted" else "reject checked-changed-value"
+          | none => "bad-op output"
+        | _ => "bad-op output"
+  | ["fexp", v] =>
+    match parseFloat v, parseFloat out with
+    | some x, some r =>
+      if r.isNaN then "reject nan" else
+      let e := Float.exp x
+      if e == 0.0 then (if r == 0.0 then "ok fexp underflow" else s!"reject fexp-value got={fshow r}") else
+      -- documented cut-off `MIN_VAL` of fastexp itself: not an operation the property lists; tallied only
+      if x ≤ -500.0 && r == 0.0 then "ok fexp cutoff" else
+      let rel := (r - e).abs / e
+      if rel ≤ tolFast then "ok nt fexp " ++ errBucket rel else s!"reject fexp-value exact={fshow e} got={fshow r}"
+    | _, _ => "bad-op parse"
+  | ["add", a, b] =>
+    match parseFloat a, parseFloat b, parseFloat out with
+    | some x, some y, some r =>
+      let v := checkLin [x, y] [] r
+      if isOk v then v ++ (if finite x && finite y then " nt" else "") ++ " add" ++ pairTags x y else v
+    | _, _, _ => "bad-op parse"
+  | ["sub", a, b] =>
+    match parseFloat a, parseFloat b, parseFloat out with
+    | some x, some y, some r =>
+      if x < y then "bad-op a<b" else
+      let v := checkLin [x] [y] r
+      if isOk v then v ++ (if finite x && finite y then " nt" else "") ++ " sub" ++ pairTags x y else v
+    | _, _, _ => "bad-op parse"
+  | ["1m", a] =>
+    match parseFloat a, parseFloat out with
+    | some x, some r =>
+      let v := checkLin [0.0] [x] r
+      if isOk v then v ++ (if finite x && x < 0.0 then " nt" else "") ++ " 1m"
+        ++ (if x < -0.693 then " fast-branch" else " exact-branch") ++ pairTags 0.0 x else v
+    | _, _ => "bad-op parse"
+  | ["sum", l] =>
+    match parseFloatList l, parseFloat out with
+    | some xs, some r =>
+      let v := checkLin xs [] r
+      let nf := (xs.filter finite).length
+      if isOk v then v ++ (if nf ≥ 2 then " nt" else "") ++ " sum" ++ (if xs.isEmpty then " empty" else "")
+        ++ (if xs.any isNegInf then " ln0" else "") ++ (if xs.length ≥ 20 then " long" else "")
+        ++ (if (xs.filter (· == maxOf xs)).length ≥ 2 && nf ≥ 2 then " several-maxima" else "") else v
+    | _, _ => "bad-op parse"
+  | ["cumsum", l] =>
+    match parseFloatList l, parseFloatList out with
+    | some xs, some rs =>
+      if xs.length ≠ rs.length then "reject cumsum-length" else
+      let rec go (k : Nat) (fuel : Nat) : String :=
+        match fuel with
+        | 0 => "ok"
+        | fuel + 1 =>
+          if k > xs.length then "ok" else
+          let v := checkLin (xs.take k) [] (rs.getD (k - 1) nan)
+          if isOk v then go (k + 1) fuel else v ++ s!" at-prefix={k}"
+      let v := go 1 xs.length
+      if isOk v then v ++ (if (xs.filter finite).length ≥ 2 then " nt" else "") ++ " cumsum"
+        ++ (if xs.isEmpty then " empty" else "") ++ (if xs.any isNegInf then " ln0" else "") else v
+    | _, _ => "bad-op parse"
+  | [op, ds, a, b, n] =>
+    if op ≠ "trap" && op ≠ "simp" then "bad-op unknown" else
+    match parseDens ds, parseFloat a, parseFloat b, parseNat n, parseFloat out with
+    | some d, some a, some b, some n, some r =>
+      if n < 2 || !(a < b) then "bad-op interval" else
+      let (terms, fac) := quadTerms d a b n (op = "simp")
+      let v := checkLin terms [] (r - fac) true
+      if isOk v then v ++ (if (terms.filter finite).length ≥ 2 then " nt" else "") ++ " " ++ op ++ s!" n{n}"
+        ++ (if terms.any isNegInf then " ln0" else "")
+        ++ (if maxOf terms - (terms.filter finite).foldl (fun m x => if x < m then x else m) 0.0 > 690.0 then " 300-orders-apart" else "")
+      else v
+    | _, _, _, _, _ => "bad-op parse"
+  | ["grid", ds, g] =>
+    match parseDens ds, parseFloatList g, parseFloat out with
+    | some d, some g, some r =>
+      let terms := gridTerms d g
+      let v := checkLin terms [] r true
+      if isOk v then v ++ (if (terms.filter finite).length ≥ 2 then " nt" else "") ++ s!" grid"
+        ++ (if g.length < 3 then " short-grid" else "") ++ (if terms.any isNegInf then " ln0" else "") else v
+    | _, _, _ => "bad-op parse"
+  | ["conv", chain, v] =>
+    match parseFloat v, parseFloat out with
+    | some x, some r =>
+      let cs := chain.toList
+      match convRef cs x, cs.getLast? with
+      | some e, some k =>
+        if r.isNaN then "reject nan" else
+        let fast := usesFast cs
+        let tol := if fast then tolFast else tolExact
+        if closeOn k r e tol then
+          "ok" ++ (if finite x && x != 0.0 then " nt" else "") ++ " conv-" ++ chain ++ (if fast then " fast" else " exact")
+        else
+          -- the documented cut-off of fastexp: LogProb ≤ -500 → Prob 0
+          match fastOperand cs x with
+          | some lx =>
+            if fast && lx ≤ -500.0 && finite lx && Float.exp lx > 0.0 &&
+               (match k with | 'p' => r == 0.0 | 'l' => isNegInf r | _ => isPosInf r) then
+              s!"reject fastexp-cutoff conv-{chain} operand-ln={fshow lx}"
+            else s!"reject conversion expected={fshow e} got={fshow r}"
+          | none => s!"reject conversion expected={fshow e} got={fshow r}"
+      | _, _ => "bad-op chain"
+    | _, _ => "bad-op parse"
+  | _ => "bad-op unknown"
 
 end RbV.Drv.C15
